@@ -28,10 +28,14 @@ pub(super) fn parse_array<'a>(src: &mut &'a [u8]) -> io::Result<Array<'a>> {
 
 fn maybe_consume_delimiter(src: &mut &[u8]) -> io::Result<()> {
     const DELIMITER: u8 = b',';
+    const FIELD_TERMINATOR: u8 = b'\t';
 
     if let Some((b, rest)) = src.split_first() {
         if *b == DELIMITER {
             *src = rest;
+        } else if *b == FIELD_TERMINATOR {
+            // An empty array (e.g., `XA:B:c`) followed by another field: the array has no values,
+            // and the field terminator is left for the field parser to consume.
         } else {
             return Err(io::Error::new(
                 io::ErrorKind::InvalidData,
@@ -46,6 +50,14 @@ fn maybe_consume_delimiter(src: &mut &[u8]) -> io::Result<()> {
 #[cfg(test)]
 mod tests {
     use super::*;
+
+    #[test]
+    fn test_parse_array_with_empty_array_before_field_terminator() -> io::Result<()> {
+        let mut src = &b"c\tXB:i:1"[..];
+        assert!(matches!(parse_array(&mut src)?, Array::Int8(values) if values.len() == 0));
+        assert_eq!(src, b"\tXB:i:1");
+        Ok(())
+    }
 
     #[test]
     fn test_parse_array() -> io::Result<()> {
